@@ -646,3 +646,66 @@ Proof.
   intros Hm Ho Ht a Ha. unfold at_u. apply any_configuration. destruct (seqalg_total_ok s Ht) as [H1 H2].
   destruct Ha as [->| ->]; cbn [cfg_hyps]; auto.
 Qed.
+
+(* ------------------------------------------------------------------------------------------ *)
+(* discharging the C09 interface *)
+
+From AV Require proofs.DecompProofs.
+
+Lemma decomp_ok_valid m : DecompProofs.valid_method m -> decomp_ok m.
+Proof. intros H x _. exact (DecompProofs.decomp_interface m x H). Qed.
+
+Lemma runlength_ones_holds : runlength_ones.
+Proof.
+  intros x s Hs t Ht. destruct (DecompProofs.runlength_ones 0%N x s Hs t Ht) as (l & H1 & _ & H2).
+  exists l. split; [exact H1|exact H2].
+Qed.
+
+Lemma ensemble_decomposers_valid : forall m, In m ensemble_decomposers -> DecompProofs.valid_method m.
+Proof.
+  intros m H. vm_compute in H.
+  repeat (destruct H as [<-|H]; [cbn [DecompProofs.valid_method]; lia|]). destruct H.
+Qed.
+
+(* every configuration of the property's list: any decomposer with K >= 1 (any T), any sequence
+   algorithm that C08 proves total, runs, binary, sequence algorithms as chain algorithms, each with
+   any nesting of the optimisation wrapper *)
+Fixpoint cfg_valid (a : alg_cfg) : Prop :=
+  match a with
+  | ABinary => True
+  | ADict m s => DecompProofs.valid_method m /\ seqalg_total s = true
+  | ARuns s => seqalg_total s = true
+  | AOpt a' => cfg_valid a'
+  | ASeq s => seqalg_total s = true
+  end.
+
+Lemma cfg_valid_hyps a : cfg_valid a -> cfg_hyps a.
+Proof.
+  induction a as [|m s|s|a IH|s]; cbn [cfg_valid cfg_hyps]; intros H.
+  - exact I.
+  - destruct H as [Hm Hs]. split; [now apply decomp_ok_valid|apply (seqalg_total_ok s Hs)].
+  - split; [apply decomp_ok_valid; exact I|]. split; [exact runlength_ones_holds|apply (seqalg_total_ok s H)].
+  - now apply IH.
+  - apply (seqalg_total_ok s H).
+Qed.
+
+Theorem every_configuration a : cfg_valid a -> at_u a.
+Proof. intros H. unfold at_u. apply any_configuration. now apply cfg_valid_hyps. Qed.
+
+Lemma ensemble_valid a : In a ensemble -> cfg_valid a.
+Proof.
+  intros Ha. destruct (ensemble_members a Ha) as [(m & s & -> & Hm & Hs)|(s & -> & Hs)]; cbn [cfg_valid].
+  - split; [now apply ensemble_decomposers_valid|now apply ensemble_seqalgs_total].
+  - now apply ensemble_seqalgs_total.
+Qed.
+
+Theorem ensemble_ok : forall a, In a ensemble -> at_u a.
+Proof. intros a Ha. apply every_configuration, ensemble_valid, Ha. Qed.
+
+(* with the stable sort the refusal alternative disappears *)
+Theorem every_configuration_stable a : cfg_valid a ->
+  forall n, 1 <= n -> Z.of_N (bitlen n) < 2 ^ 64 ->
+  exists r, execute a n None = Ok r /\ good_result_u n r.
+Proof.
+  intros H n Hn Hb. destruct (every_configuration a H n None Hn Hb) as [Hr|[Ho _]]; [exact Hr|congruence].
+Qed.
